@@ -1,5 +1,6 @@
 import EaModel.Properties.SchedCommon
 import EaModel.Lemmas.Frame
+import EaModel.Lemmas.Store
 /-!
 # C07 — job status, callbacks and job store stay consistent
 -/
@@ -101,5 +102,43 @@ theorem not_running_record_frozen (env : Env) (now : Int) (en : Bool) (ops more 
     intro s hI hnq hop
     have f1 := step_frozen s op i hI hnq (hop op (by simp)).1 (hop op (by simp)).2
     exact f1.trans (ih _ (step_inv s op hI) f1.2 (fun o ho => hop o (by simp [ho])))
+
+
+theorem storeInv_reachable (env : Env) (now : Int) (en : Bool) (ops : List Op) :
+    StoreInvX none (runOps (initSt env now en) ops) := by
+  suffices h : ∀ (ops : List Op) (s : St), Inv s → StoreInvX none s → StoreInvX none (runOps s ops) by
+    refine h ops _ (inv_init env now en) ⟨?_, ?_, ?_, ?_⟩
+    · intro k j hm; simp [initSt] at hm
+    · intro j hi; simp [initSt, St.job] at hi
+    · simp [initSt]
+    · intro j _ _; simp [initSt, St.job]
+  intro ops
+  induction ops with
+  | nil => intro s _ h; exact h
+  | cons op ops ih => intro s hI h; exact ih _ (step_inv s op hI) (step_storeInv s op hI h)
+
+/-- The job store is exact, in every reachable state: an entry `(id, job)` is in the store exactly when the job
+was added to a store under that id and has not finished (`inStore` is set at creation and cleared by
+`job_finish`); ids are unique; stored jobs are neither FINISHED nor still being created, and a finished job is
+in no store. Together with `C02.duplicate_id_inert` (a duplicate id is refused and changes nothing). -/
+theorem store_exact (env : Env) (now : Int) (en : Bool) (ops : List Op) :
+    let s := runOps (initSt env now en) ops
+    (∀ k j, (k, j) ∈ s.store ↔ ((s.job j).inStore = true ∧ (s.job j).key = k)) ∧
+    (s.store.map Prod.fst).Nodup ∧
+    (∀ j, (s.job j).inStore = true → (s.job j).status ≠ .finished ∧ (s.job j).status ≠ .created) ∧
+    (∀ k j, (s.job j).status = .finished → (k, j) ∉ s.store) := by
+  intro s
+  have h := storeInv_reachable env now en ops
+  refine ⟨fun k j => ⟨fun hm => ⟨(h.mem k j hm).1, (h.mem k j hm).2.1⟩, fun ⟨hi, hk⟩ => hk ▸ h.has j hi⟩, h.uniq, ?_, ?_⟩
+  · intro j hi
+    refine ⟨(h.mem _ j (h.has j hi)).2.2, fun hc => ?_⟩
+    have := h.fresh j (by simp) hc
+    rw [hi] at this; cases this
+  · intro k j hf hm
+    exact (h.mem k j hm).2.2 hf
+
+-- non-vacuity: a stored one-shot job leaves the store when it has run; a duplicate id is refused meanwhile
+#guard (runOps (initSt {} 0) [.create 1 (some 7) (.once 5) [] [], .create 2 (some 7) (.once 6) [] []]).store == [(7, 1)]
+#guard (runOps (initSt {} 0) [.create 1 (some 7) (.once 5) [] [], .sleep 10]).store == []
 
 end Ea.C07
